@@ -452,7 +452,9 @@ def gen_run(seed: int, tier: str, sub: str) -> dict:
             names = [n for n in names if n not in ('q_a16', 'q_b8')] + ['q_a16', 'q_b8']
         if rot % 2 == 0 and 'zs_pos' in dnames:
             # the twins that differ only in the sign of a zero, in either order
-            tw = ['zs_pos', 'zs_neg'] if (rot // 2) % 2 == 0 else ['zs_neg', 'zs_pos']
+            tw = list(m['TWINS'][1 + (rot // 2) % (len(m['TWINS']) - 1)])
+            if (rot // 4) % 2:
+                tw.reverse()
             names = [n for n in names if n not in tw][:2] + tw
         picks = {name: (catalogue('main', name, m['SIG'][name])[rot % 4], r.choice(CTX_NAMES)) for name in names}
         threads = []
